@@ -1,0 +1,27 @@
+//go:build verif
+
+// Contracts for package taskqueue (properties C21, C23). Comment-only: read by /verif/bin/gsv, never
+// compiled into the package.
+
+package taskqueue
+
+//@ ghost spawned int      -- goroutines started so far (every `go` statement counts one)
+
+//@ -- C21: exactly workerCount workers are started
+//@ func WorkerTaskQueue.Startup
+//@   modifies spawned
+//@   ensures spawned == old(spawned) + workerCount
+//@   loop 1 invariant spawned == old(spawned) + idx1
+
+//@ -- C21: a worker starts no further goroutines, asks the queue for one unit of work at a time, and runs the tasks it
+//@ -- popped one after the other (ExecuteTask is a synchronous call), so it contributes at most one running task
+//@ func WorkerTaskQueue.worker
+//@   lenient
+//@   safety off
+//@   modifies WorkerTaskQueue.activeTasks, alloc
+//@   ensures spawned == old(spawned)
+//@   callsite PeerTaskQueue.PopTasks: assert $targetMinWork == 1
+//@   callsite Executor.ExecuteTask: assert $pid == pid && $task == task
+//@   loop 1 invariant spawned == old(spawned) && targetWork == 1
+//@   loop 2 invariant spawned == old(spawned) && targetWork == 1
+//@   loop 3 invariant spawned == old(spawned) && targetWork == 1
